@@ -153,7 +153,9 @@ fn eval_cohort(n_samples: usize, m: usize) -> (u64, Vec<Viol>) {
                     let finite = g.spectrum.data.iter().all(|v| v.is_finite());
                     let ok = g.skipped == 0
                         && g.spectrum.data.len() == expect.len()
-                        && g.spectrum.data.iter().zip(&expect).all(|(x, r)| close_coef(*x, *r));
+                        // one record, one population: every entry is a single pmf value, so the comparison is
+                        // relative even for the far tails (a contribution of 1e-200 must not be dropped)
+                        && g.spectrum.data.iter().zip(&expect).all(|(x, r)| crate::refmodel::close(*x, *r, 1e-8, 1e-300));
                     if !ok {
                         viols.push((
                             format!("C02|lib|cohort-{}|{size_class}", if finite { "wrong" } else { "non-finite" }),
@@ -403,7 +405,7 @@ pub fn run(tier: Tier) -> i32 {
         }
     }
     // outputs of more than 1024 and more than 4096 entries (30 samples in 3 populations, 40 in 2)
-    for (n, pops, m) in [(30usize, 3usize, vec![10usize, 10, 8]), (70, 2, vec![66, 62]), (24, 1, vec![40])] {
+    for (n, pops, m) in [(30usize, 3usize, vec![10usize, 10, 8]), (70, 2, vec![66, 62]), (24, 1, vec![40]), (12, 6, vec![2, 2, 2, 2, 2, 2]), (16, 8, vec![2, 2, 0, 2, 4, 2, 2, 2])] {
         let map: Vec<Option<usize>> = (0..n).map(|i| Some(i * pops / n)).collect();
         let classes = [Cls::G0, Cls::G1, Cls::G2, Cls::G1, Cls::Missing, Cls::G0, Cls::Multi, Cls::G2];
         let rows_big: Vec<Vec<Cls>> = (0..25usize)
@@ -420,7 +422,7 @@ pub fn run(tier: Tier) -> i32 {
         name: "cli: sfs create --project-shape / -p".into(),
         evaluations: cj.len() as u64,
         nontrivial: cj.len() as u64,
-        note: "14 maps of 3 samples x every target vector; 12-record call set with missing/multiallelic patterns and single records; -p vs --project-shape byte identity; precision 0/3/6/12; skipped count on stderr; three larger cohorts (30 samples in 3 populations projected to 11x11x9 = 1 089 entries, 70 in 2 to 67x63 = 4 221, 24 in one) with missing and multiallelic genotypes, every printed value compared".into(),
+        note: "14 maps of 3 samples x every target vector; 12-record call set with missing/multiallelic patterns and single records; -p vs --project-shape byte identity; precision 0/3/6/12; skipped count on stderr; three larger cohorts (30 samples in 3 populations projected to 11x11x9 = 1 089 entries, 70 in 2 to 67x63 = 4 221, 24 in one, 12 in six and 16 in eight populations) with missing and multiallelic genotypes, every printed value compared".into(),
         exhaustive: true,
         extra: vec![],
     });
